@@ -109,6 +109,11 @@ fn stake_families(n: usize) -> Vec<(&'static str, Vec<u64>)> {
         d[n - 1] = 10 * n as u64;
         v.push(("one-dominant", d));
         v.push(("increasing", (0..n).map(|i| 19 + i as u64).collect()));
+        if n <= 18 {
+            // lamport-scale stakes: the total is a large fraction of 2^64, where different
+            // uniform-integer algorithms (with / without a rejection zone) stop agreeing bit for bit
+            v.push(("huge-1e18", vec![1_000_000_000_000_000_000u64; n]));
+        }
     }
     v
 }
@@ -190,6 +195,19 @@ pub fn run(tier: Tier) -> i32 {
             nontrivial.fetch_add(1, std::sync::atomic::Ordering::Relaxed);
             let replay = json!({"config": cfg, "slot": s, "slice": sl, "shred": i});
             samples.lock().unwrap().push(|| replay.clone());
+            // the leader sends first (as in a real run: it never handles its own shred before
+            // sending it, so nothing about this key is cached in its instance yet) ...
+            let first = nodes[leader].send(shred);
+            // ... and must name the same first hop once its instance has seen the key
+            let first_again = nodes2[leader].send(shred);
+            if first_again != first {
+                report.violation(
+                    format!("C16:depends-on-call-order-or-instance:{proto:?}"),
+                    format!("leader {leader}: a fresh instance sends (slot {s}, slice {sl}, shred {i}) to {first:?}, an instance that handled the key before sends it to {first_again:?}"),
+                    replay.clone(),
+                );
+                return;
+            }
             // what every instance does when handed the shred
             let fw: Vec<Vec<usize>> = (0..*n).map(|v| nodes[v].forward(shred)).collect();
             for v in 0..*n {
@@ -202,7 +220,6 @@ pub fn run(tier: Tier) -> i32 {
                     return;
                 }
             }
-            let first = nodes[leader].send(shred);
             if first.len() != 1 {
                 report.violation(format!("C16:leader-sends-to-{}-nodes:{proto:?}", first.len()), format!("{first:?}"), replay.clone());
                 return;
